@@ -12,7 +12,7 @@ for d in sorted(glob.glob(f'{ROOT}/seeded/C*')):
     if sh(f'git apply {patch}', cwd=REPO).returncode!=0: res[sid]='APPLY-FAIL'; continue
     row={}
     try:
-        for c in IDS:
+        for c in ([sid.split('-')[0]] if os.environ.get('MATRIX_TARGET_ONLY') else IDS):
             t0=time.time(); o=sh(f'{ROOT}/check {c} quick')
             msg=[l for l in (o.stdout+o.stderr).splitlines() if l.startswith(f'[{c}] ') and 'tier=' not in l]
             row[c]={'exit':o.returncode,'seconds':round(time.time()-t0,1),'message':(msg[0][:200] if msg else '')}
@@ -20,10 +20,10 @@ for d in sorted(glob.glob(f'{ROOT}/seeded/C*')):
         sh(f'git apply -R {patch}', cwd=REPO)
     res[sid]=row
     print(sid, [c for c,v in row.items() if v['exit']==1], [c for c,v in row.items() if v['exit'] not in (0,1)], flush=True)
-json.dump(res, open(f'{ROOT}/seeded/cross_matrix.json','w'), indent=1)
+json.dump(res, open(f'{ROOT}/seeded/' + ('target_matrix.json' if os.environ.get('MATRIX_TARGET_ONLY') else 'cross_matrix.json'),'w'), indent=1)
 lines=['# Seeded changes × checks (quick tier, seed 0)','','Rows: independently written property-breaking changes (seeded/<ID>/); columns: checks that reported a VIOLATION (exit 1). Produced by tools/seeded_matrix.py.','','| seeded change (target property) | detected by | target check message |','|---|---|---|']
 for sid,row in res.items():
     if not isinstance(row,dict): lines.append(f'| {sid} | patch does not apply | |'); continue
     det=[c for c,v in row.items() if v['exit']==1]
     lines.append(f"| {sid} | {', '.join(det) or 'none'} | {row.get(sid.split('-')[0],{}).get('message','').replace('|','/')} |")
-open(f'{ROOT}/seeded/RESULTS.md','w').write('\n'.join(lines)+'\n')
+open(f'{ROOT}/seeded/' + ('RESULTS_target.md' if os.environ.get('MATRIX_TARGET_ONLY') else 'RESULTS.md'),'w').write('\n'.join(lines)+'\n')
